@@ -6,6 +6,10 @@ from .common import scratch, Machinery, NCPU
 from .tlc import run_tlc, write_ndjson, require_clean
 
 
+import threading
+_retry_lock = threading.Lock()
+
+
 class TraceStats(object):
     def __init__(self):
         self.states = 0
@@ -58,7 +62,12 @@ def validate(module, events, name, per_shard=20000, timeout=1800, env=None, cfg=
         e = {'TRACE_FILE': paths[i]}
         if env:
             e.update(env)
-        r = run_tlc(module, cfg=cfg, workers=1, env=e, timeout=timeout, xss=xss)
+        # NCPU trace checkers run side by side: each gets a bounded heap (the machine has 62 GB) and is retried once alone with a
+        # large heap if the JVM was killed or ran out of memory
+        r = run_tlc(module, cfg=cfg, workers=1, env=e, timeout=timeout, xss=xss, xmx='3g')
+        if r.rc in (-9, 137) or 'OutOfMemoryError' in r.out:
+            with _retry_lock:
+                r = run_tlc(module, cfg=cfg, workers=1, env=e, timeout=timeout, xss=xss, xmx='16g')
         return i, r
 
     rejects = []
